@@ -260,3 +260,93 @@ Proof.
   exists s. split; [eapply exec_reach; [constructor|exact E]|].
   vm_compute in E. inversion E; subst. repeat split; reflexivity.
 Qed.
+
+(* ------------------------------------------------------------------ K1: the sender stalls without a reader *)
+(* one step: a completed send uses one free slot, a receive gives back at most one, nothing else touches the buffer *)
+Lemma step_free c s a s' :
+  J c s -> step c s a = Some s' -> is_send a + free s' <= free s + is_recv a.
+Proof.
+  intros [Hcl Hdc Hpa Hct Hle Hde Hpf Hng Hca Hdo] Hs. unfold free.
+  destruct a; simpl in Hs; split_step Hs; inversion Hs; subst; clear Hs; simpl in *; rewrite ?E, ?E0, ?E1 in *;
+    try lia; try (specialize (Hcl eq_refl); discriminate);
+    repeat match goal with |- context [match ?x with _ => _ end] => destruct x eqn:? end; simpl; try lia; try congruence.
+Qed.
+
+Lemma step_free_noreader c s a s' :
+  J c s -> no_reader a = true -> step c s a = Some s' -> is_send a + free s' = free s.
+Proof.
+  intros [Hcl Hdc Hpa Hct Hle Hde Hpf Hng Hca Hdo] Hn Hs. unfold free.
+  destruct a; simpl in Hn; try discriminate; simpl in Hs; split_step Hs; inversion Hs; subst; clear Hs; simpl in *;
+    rewrite ?E, ?E0, ?E1 in *; try lia; try (specialize (Hcl eq_refl); discriminate);
+    repeat match goal with |- context [match ?x with _ => _ end] => destruct x eqn:? end; simpl; try lia; try congruence.
+Qed.
+
+(* any run: completed sends <= free capacity at the start + receives during the run *)
+Lemma sends_bounded_by_reads_l c acts : forall s s',
+  reach c s -> exec c s acts = Some s' -> sends acts + free s' <= free s + recvs acts.
+Proof.
+  induction acts as [|a r IH]; intros s s' Hr He; simpl in He.
+  - inversion He; subst; simpl; lia.
+  - destruct (step c s a) as [s1|] eqn:Es; [|discriminate].
+    pose proof (step_free c s a s1 (reach_J _ _ Hr) Es).
+    pose proof (IH s1 s' (reach_step _ _ _ _ Hr Es) He). simpl; lia.
+Qed.
+
+Lemma sends_exact_without_reader c acts : forall s s',
+  reach c s -> forallb no_reader acts = true -> exec c s acts = Some s' -> sends acts + free s' = free s.
+Proof.
+  induction acts as [|a r IH]; intros s s' Hr Hn He; simpl in He, Hn.
+  - inversion He; subst; simpl; lia.
+  - apply andb_prop in Hn. destruct Hn as (Ha & Hrn).
+    destruct (step c s a) as [s1|] eqn:Es; [|discriminate].
+    pose proof (step_free_noreader c s a s1 (reach_J _ _ Hr) Ha Es).
+    pose proof (IH s1 s' (reach_step _ _ _ _ Hr Es) Hrn He). simpl; lia.
+Qed.
+
+(* a sender at its send with the buffer full has no enabled step: only a consumer step can unblock it *)
+Lemma sender_blocked c s v w :
+  prod s = PSend v -> buf s = Some w -> closed s = false ->
+  forall a, is_producer a = true -> step c s a = None.
+Proof.
+  intros Hp Hb Hk a Ha. destruct a; simpl in Ha; try discriminate; simpl; rewrite Hp; auto.
+  rewrite Hk, Hb. reflexivity.
+Qed.
+
+Lemma contchan_sender_stalls_without_reader_l c s acts s' :
+  reach c s -> forallb no_reader acts = true -> exec c s acts = Some s' ->
+  sends acts <= free s /\ sends acts <= 1 /\
+  (sends acts = free s -> buf s' <> None) /\
+  (forall v, buf s' <> None -> prod s' = PSend v -> forall a, is_producer a = true -> step c s' a = None).
+Proof.
+  intros Hr Hn He. pose proof (sends_exact_without_reader c acts s s' Hr Hn He) as Heq.
+  assert (Hf : free s <= 1) by (unfold free; destruct (buf s); lia).
+  split; [lia|]. split; [lia|]. split.
+  - intros H. unfold free in Heq at 1. destruct (buf s'); [discriminate|lia].
+  - intros v Hb Hp a Ha. destruct (buf s') as [w|] eqn:Eb; [|congruence].
+    pose proof (exec_reach _ _ _ _ Hr He) as Hr'. destruct (reach_J _ _ Hr') as [Hcl _ _ _ _ _ _ _ _ _].
+    destruct (closed s') eqn:Ek; [specialize (Hcl eq_refl); congruence|].
+    eapply sender_blocked; eauto.
+Qed.
+
+(* positive counterpart: a receive (poll that picks this channel, or a drain step) leaves exactly one free slot,
+   i.e. re-enables exactly one further send *)
+Lemma recv_frees_one_slot_l c s a s' :
+  is_recv a = 1 -> step c s a = Some s' -> free s' = 1.
+Proof.
+  intros Ha Hs. unfold free. destruct a; simpl in Ha; try discriminate; simpl in Hs; split_step Hs;
+    inversion Hs; subst; simpl in *; rewrite ?E, ?E0 in *; reflexivity.
+Qed.
+
+(* K1 on a concrete run of the block-level configuration: after the first send nobody reads; the second run's
+   verdict cannot be sent, the sender has no enabled step, and a single receiving poll unblocks exactly one send *)
+Definition k1_acts : list act := [PTick; PVerdict VOk; PSendA; CPollSkip; PTick; PVerdict VOk].
+Example k1_sender_stalls :
+  forallb no_reader k1_acts = true /\ sends k1_acts = 1 /\ free (init c_block) = 1 /\
+  match exec c_block (init c_block) k1_acts with
+  | Some s => prod s = PSend VOk /\ buf s = Some VOk /\
+              forallb (fun a => negb (is_producer a) || negb (is_some (step c_block s a))) all_acts = true /\
+              view (exec c_block s [CPollRecv; PSendA; PTick; PVerdict VOk]) = Some (PSend VOk, Some VOk, false, CPolling, 0, 0, false) /\
+              exec c_block s [CPollRecv; PSendA; PTick; PVerdict VOk; PSendA] = None
+  | None => False
+  end.
+Proof. vm_compute. repeat split; reflexivity. Qed.
